@@ -86,6 +86,12 @@ fn kinds() -> Vec<Kind> {
         Kind { name: "every-callback", defs: "f = n => {GUARD}{STEP}", call: "(if every([{NEXT}], x => f(x) >= 0) then 0 else 1)", levels: 150 },
         Kind { name: "some-callback", defs: "f = n => {GUARD}{STEP}", call: "(if some([{NEXT}], x => f(x) >= 0) then 0 else 1)", levels: 150 },
         Kind { name: "where-callback", defs: "f = n => {GUARD}{STEP}", call: "(len([{NEXT}] where (x => f(x) >= 0)) - 1)", levels: 150 },
+        // recursion whose cycle contains no named function: the lambda lives in a record field, in a list,
+        // or is passed inline, and reaches itself through a parameter
+        Kind { name: "anonymous-in-record", defs: "k = {go: (self, n) => {GUARD}{STEP}}\nf = n => k.go(k.go, n)", call: "self(self, {NEXT})", levels: 300 },
+        Kind { name: "anonymous-in-list", defs: "fs = [(self, n) => {GUARD}{STEP}]\nf = n => fs[0](fs[0], n)", call: "self(self, {NEXT})", levels: 300 },
+        Kind { name: "anonymous-inline-argument", defs: "f = n => (g => g(g, n))((self, n) => {GUARD}{STEP})", call: "self(self, {NEXT})", levels: 300 },
+        Kind { name: "anonymous-via-callback", defs: "fs = [(self, n) => {GUARD}{STEP}]\nf = n => fs[0](fs[0], n)", call: "([{NEXT}] via (m => self(self, m)))[0]", levels: 150 },
         Kind { name: "do-block", defs: "f = n => {GUARD}do {\n  m = {NEXT}\n  r = {STEPM}\n  return r\n}", call: "f(m)", levels: 300 },
         Kind { name: "record-wrapped", defs: "f = n => {GUARD}{STEP}", call: "{k: f({NEXT})}.k", levels: 300 },
         Kind { name: "into", defs: "f = n => {GUARD}{STEP}", call: "(({NEXT}) into f)", levels: 300 },
@@ -231,7 +237,7 @@ pub fn run(ctx: &Ctx, replay: Option<&J>) -> i32 {
     finish(
         ctx,
         "exploration",
-        "recursion grammar: 16 recursion kinds (self, mutual, via / map / reduce / filter / where / every / some / count_by / group_by callbacks, do-block body, record-wrapped, into, conditional arms, closure-returning-closure) x 5 nesting constructs (binary +, unary -, list literal + index, call argument, nested do-blocks around a helper defined after the function) x per-call nesting depth 1..32 (quick: 1,2,4,8,16,32) x {unbounded, bounded to a few hundred calls}; every program run twice through the release CLI under an 8 MiB stack limit; distinct = distinct programs",
+        "recursion grammar: 20 recursion kinds (self, mutual, anonymous lambdas held in a record / a list / passed inline that reach themselves through a parameter, via / map / reduce / filter / where / every / some / count_by / group_by callbacks, do-block body, record-wrapped, into, conditional arms, closure-returning-closure) x 5 nesting constructs (binary +, unary -, list literal + index, call argument, nested do-blocks around a helper defined after the function) x per-call nesting depth 1..32 (quick: 1,2,4,8,16,32) x {unbounded, bounded to a few hundred calls}; every program run twice through the release CLI under an 8 MiB stack limit; distinct = distinct programs",
         true,
         None,
     )
